@@ -10,9 +10,9 @@ import export
 import family
 from common import Ctx, MachineryError, pmap
 
-JUDGE = ["C18_TargetTouchedLast", "C18_NothingBeside", "C18_FailureAtomic", "C18_Success", "C18_Raises"]
+JUDGE = ["C18_TargetTouchedLast", "C18_NothingBeside", "C18_FailureAtomic", "C18_Success", "C18_Raises", "C18_Completes"]
 CONV = {"ok", "ok_empty", "raise_before", "raise_after", "ret_list", "ret_none", "ret_str", "ret_missing"}
-TARGETS = {"absent", "old", "missingdir"}
+TARGETS = {"absent", "old", "missingdir", "tilde"}
 WRITERS = {"rtf", "docx", "html", "pdf"}
 
 
